@@ -29,6 +29,9 @@ func uniqueName(i, L int) string {
 		}
 	}
 	s := string(digits)
+	if len(s) < L {
+		s += "~" // terminates the digits: the name is a function of i alone, and injective for every size
+	}
 	for len(s) < L {
 		s += string(nameAlphabet[(i+len(s))%26])
 	}
@@ -326,6 +329,13 @@ func readdirSweep(root string) {
 	} else {
 		sizes = []int{0, 1, 2, 3, 4, 5, 7, 10, 16, 25, 26, 27, 40, 63, 64, 65, 70}
 	}
+	// scale: directories larger than any per-call bound an implementation might have (entries per call, cache
+	// windows), read with buffers that hold hundreds or thousands of entries
+	if hx.Thorough() {
+		sizes = append(sizes, 255, 256, 257, 509, 510, 511, 513, 1100, 2050)
+	} else {
+		sizes = append(sizes, 509, 513, 1100)
+	}
 	var jobs []job
 	for _, sz := range sizes {
 		for _, p := range profiles {
@@ -396,6 +406,9 @@ func sweepDir(g *guest, orc *hx.Oracle, d *rdDir, rng *rand.Rand) {
 		}
 	}
 	bufs = append(bufs, 1024, 4096, 20000, 65536, 131072)
+	if d.spec.Size > 100 {
+		bufs = []uint32{300, 4096, 12264, 20000, 65536, 131072}
+	}
 	s := openSession(g, orc, d) // one descriptor for all fixed-length runs: each run starts with a rewind
 	for _, b := range bufs {
 		b := b
@@ -413,6 +426,9 @@ func sweepDir(g *guest, orc *hx.Oracle, d *rdDir, rng *rand.Rand) {
 	nr := 12
 	if hx.Thorough() {
 		nr = 40
+	}
+	if d.spec.Size > 100 {
+		nr = 3
 	}
 	s = openSession(g, orc, d)
 	for i := 0; i < nr && !s.bad; i++ {
